@@ -368,7 +368,11 @@ def finish(ctx):
         "theorem 'transcripts equal' carries explicit premises: the Finished function and SM3 do not collide on the two compared inputs, and the last Finished arrives as sent",
         "record header bytes of plaintext handshake records are not authenticated by the protocols: faults are applied to payload bytes (offset >= 5) and to whole records",
         "duplicate of the last handshake record of a direction (client Finished / server Finished): its receiver has left the handshake before the copy arrives, so both sides complete (true of every TLS implementation); the check then requires that the copy is not accepted as application data",
+        "handshake message layer (C10_codec_* theorems): Tls/HsCodec.v is an Impl model, written after the control flow of tls_record_set_handshake / tls_record_get_handshake and of the set_/get_ pairs for ClientHello, ServerHello, Certificate, ServerKeyExchange (ECDHE, TLCP), CertificateRequest, ServerHelloDone, ClientKeyExchange (ECDHE, PKE), CertificateVerify, Finished; it is tied to the C code by the differential run of this check (same inputs to the extracted model and to the library functions, outputs compared line by line, plus: no C output may leave the declared capacity TLS_MAX_RECORD_SIZE / the caller's buffers). TLS 1.3 forms (encrypted extensions, tls13 certificate / certificate verify) are not modelled",
+        "theorem hypotheses of the codec statements: rec_wf (the buffer holds exactly 5 + declared-length bytes: what tls_record_recv establishes) and bytes_ok (every element < 256); 'random' has 32 bytes (C array type). Whether 65 octets are a curve point (point_ok: sm2_z256_point_from_octets, C12) and whether a byte string is one DER certificate (cert_ok: x509_cert_from_der, C15) are INPUTS of the model, answered by the library itself during the differential run (harness ops pointok / certok)",
+        "C10_codec_both_done_same_messages_partial / C10_codec_altered_handshake_record_detected_partial keep the premises of C10_both_done_same_transcript_partial (no collision of the Finished function and of SM3 on the one compared pair, last Finished delivered as sent, Finished framing) and add: each endpoint's transcript is the concatenation of record+5 of the handshake records it made or accepted, in order (the sm3_update calls of the drivers; observed by the C08 observer which recomputes both Finished values from the captured messages)",
+        "lax getter rules are modelled as they are and recorded as Examples in Tls/HsCodecProofs.v, not asserted away: ClientHello compression methods unconstrained and empty cipher list accepted; bytes after the certificate list ignored; CertificateVerify signature length not bounded by the getter; setters ignoring the status of tls_record_set_handshake (return 1, no record) ; set_certificate_request accepting 256 types (length byte wraps). Patches: work/patches_tls/",
     ]
     return ctx.finish(level="proof",
-                      rule="per protocol x {server-auth, mutual-auth}: single-bit flips at every 3rd payload byte of every handshake record (every byte in the thorough tier) plus all handshake type/length fields and the last byte; per record drop, duplicate, swap-with-next, inject, truncate (+close / +fixed length). cell = (protocol, auth mode, fault kind, region, outcome class)",
-                      trusted=core.TRUSTED_COMMON + ["proxy thread and fault injection of props/C08/tls_peer.h", "Coq files: Tls/Handshake.v HandshakeProofs.v, Tls/KeySched.v"])
+                      rule="per protocol x {server-auth, mutual-auth}: single-bit flips at every 3rd payload byte of every handshake record (every byte in the thorough tier) plus all handshake type/length fields and the last byte; per record drop, duplicate, swap-with-next, inject, truncate (+close / +fixed length). cell = (protocol, auth mode, fault kind, region, outcome class). Codec part: per set_/get_ function, structured random admissible fields plus boundary lengths (0, 1, max, max+1), every valid record re-read by its getter and by another message's getter, malformed neighbours of valid records (record type / version flips, handshake type, 24-bit length +-1, truncation and trailing byte with one or both outer lengths adjusted, body removed, inserted / deleted / flipped body bytes, ill-framed buffers) and random bodies under a valid record header; cell = (op, variant class)",
+                      trusted=core.TRUSTED_COMMON + ["proxy thread and fault injection of props/C08/tls_peer.h", "Coq files: Tls/Handshake.v HandshakeProofs.v, Tls/KeySched.v, Tls/HsCodec.v HsCodecProofs.v", "codec harness props/C10/hscodec_harness.c and OCaml driver props/C10/driver.ml (argument parsing, printing)", "name tables of src/tls_trace.c (known protocol / cipher suite / handshake type / certificate type / curve values) transcribed into Tls/HsCodec.v"])
